@@ -63,6 +63,48 @@ def program(params, allnames, decorated, captured=0):
     return f"{deco}def f({params}):\n    return {ret}\nlog('defined')\n"
 
 
+HOOK_PRELUDE = '''import functools
+class Wrap:
+    def __init__(self, f): self.f = f
+    def __call__(self, *a, **k): return ('wrap', self.f(*a, **k))
+def part(f):
+    return functools.partial(f, 10)
+def plain(f):
+    def g(*a, **k): return ('plain', f(*a, **k))
+    return g
+def show(f, *a, **k):
+    return f(*a, **k)
+'''
+
+
+def hook_programs():
+    """decorated methods whose decorators return something that is NOT a plain function (a callable instance, a
+    functools.partial, a builtin) - the class hooks `__class_getitem__` / `__init_subclass__` among them: the name is bound to
+    exactly what the decorators returned, and calls bind their arguments as in Python"""
+    bodies = {
+        "getitem-callable-instance": "class Table:\n    @Wrap\n    def __class_getitem__(item, scale=10):\n        return ('item', item, scale)\n"
+                                     "print(Table[3], show(Table.__class_getitem__, 4, scale=2), type(Table.__dict__['__class_getitem__']).__name__)\n",
+        "getitem-partial": "class Table:\n    @part\n    def __class_getitem__(ten, item, scale=1):\n        return ('item', ten, item, scale)\n"
+                           "print(Table[3], show(Table.__class_getitem__, 4, scale=2))\n",
+        "getitem-plain": "class Table:\n    @plain\n    def __class_getitem__(cls, item):\n        return ('item', cls.__name__, item)\n"
+                         "print(Table[3], show(Table.__class_getitem__, 4))\n",
+        "getitem-builtin": "class Table:\n    @(lambda f: len)\n    def __class_getitem__(cls, item):\n        return item\n"
+                           "print(Table['abc'], show(Table.__class_getitem__, 'ab'))\n",
+        "subclass-partial": "LOG = []\nclass Base:\n    @part\n    def __init_subclass__(ten, **kw):\n        LOG.append(('isc', ten, sorted(kw)))\n"
+                            "class Sub(Base, flag=1):\n    pass\nprint(LOG, show(Base.__init_subclass__, z=2), LOG)\n",
+        "subclass-callable-instance": "LOG = []\nclass Base:\n    @Wrap\n    def __init_subclass__(**kw):\n        LOG.append(('isc', sorted(kw)))\n        return len(LOG)\n"
+                                      "class Sub(Base, flag=1):\n    pass\nprint(LOG, show(Base.__init_subclass__, z=2))\n",
+        "method-callable-instance": "class K:\n    @Wrap\n    def m(a, b=2):\n        return (a, b)\n    @staticmethod\n    @plain\n    def s(a, b=3):\n        return (a, b)\n"
+                                    "print(K.m(1), K().m(5, b=6), K.s(1), K().s(4, 5))\n",
+    }
+    out = []
+    for name, body in bodies.items():
+        out.append(((name, "module"), HOOK_PRELUDE + body))
+        ind = "\n".join("    " + l for l in body.rstrip("\n").split("\n"))
+        out.append(((name, "function"), HOOK_PRELUDE + "def w_():\n" + ind.replace("LOG = []", "global LOG\n    LOG = []") + "\nw_()\n"))
+    return out
+
+
 def _work(job):
     import inspect
     import sys
@@ -157,7 +199,7 @@ def run(chk, build, replay=None):
     chk.coverage.setdefault("direct_oracle", {}).update(counts)
     # the header (defaults, decorators) resolved in every kind of DEFINING scope: module, function locals / parameters /
     # captured variables, class members, nested two deep, declared global, lambdas
-    placed = [] if replayed else [s for _, s in gen_place.function_placements()]
+    placed = [] if replayed else [s for _, s in gen_place.function_placements()] + [s for _, s in hook_programs()]
     propkit.lower_correspondence(chk, placed, configs=[(False, False), (True, True)], label="converter(function placements)")
     propkit.oracle_exec(chk, placed, triples, what="a function defined in a nested scope evaluates its defaults / decorators in "
                         "a different scope or binds calls differently", reject_ok=False)
